@@ -15,6 +15,11 @@ Proof. reflexivity. Qed.
 Lemma gen_decode_subdomain_is_model : forall data, gen_decode_subdomain data = decode_subdomain data.
 Proof. reflexivity. Qed.
 
+Lemma gen_dict_is_model : forall b bs os,
+  gen_dict_boundaries b = dict_boundaries b /\ gen_dict_orientations b = dict_orientations b /\
+  gen_dict_load bs os = dict_load bs os.
+Proof. intros; repeat split. Qed.
+
 (* ---- hexahedron node permutations *)
 Lemma inv_hex_is_index : INV_HEX_MAPPING = inverse_by_index HEX_MAPPING.
 Proof. vm_compute. reflexivity. Qed.
